@@ -17,19 +17,20 @@ Produce(status, framing, full, len, fin) ==
   /\ UNCHANGED got
 
 \* the property
-Faithful(s, status, framing, declared, len, intact, complete) ==
+Faithful(s, status, framing, declared, len, intact, complete, cver) ==
   /\ intact                                          \* received bytes are the producer's bytes, in order, from offset 0
   /\ len <= s.len                                    \* ... hence a prefix of what was produced
-  /\ (complete => ((s.fin = "complete" \/ framing = "close") /\ len = s.len))   \* a shortened body is never presented as complete
-  \* the consumer can tell (a close-delimited message to an HTTP/1.0 consumer has no in-band end marker: exempt)
-  /\ (s.fin = "aborted" /\ framing # "close" => ~complete)
+  \* a shortened body is never presented as complete; the consumer can tell.  Only a close-delimited message to an
+  \* HTTP/1.0 consumer (which cannot receive chunked coding) has no in-band end marker and is exempt.
+  /\ (complete => ((s.fin = "complete" \/ (framing = "close" /\ cver = 10)) /\ len = s.len))
+  /\ (s.fin = "aborted" /\ ~(framing = "close" /\ cver = 10) => ~complete)
   /\ (declared >= 0 => declared = s.len \/ ~complete) \* a declared length that completes is the real length
   /\ (declared >= 0 /\ s.fin = "complete" => declared = s.len) \* ... and is never wrong for a completely produced body
   /\ status = s.status
 
 \* Squid may also answer with its own error instead of relaying (502/504...): then nothing is claimed about the body
-Consume(status, framing, declared, len, intact, complete, squidError) ==
-  /\ (squidError \/ Faithful(sent, status, framing, declared, len, intact, complete))
+Consume(status, framing, declared, len, intact, complete, squidError, cver) ==
+  /\ (squidError \/ Faithful(sent, status, framing, declared, len, intact, complete, cver))
   /\ got' = [status |-> status, framing |-> framing, full |-> declared, len |-> len, fin |-> IF complete THEN "complete" ELSE "aborted"]
   /\ UNCHANGED sent
 ====
